@@ -57,7 +57,7 @@ def main(run):
                 "in notes); per metric a history of type-appropriate (y_true, y_pred) calls issued through 1-3 loss wrappers and an "
                 "explainer SHARING one metric object in random interleaving; after every call the returned value must equal "
                 "sign * (fresh metric after that single pair) (NaN-aware, 1e-9) and metric.get() its value before the first call; a "
-                "confident predictions (exact 0/1, probabilities down to 1e-300); the metric handed to a static IncrementalSage with loss_bigger_is_better off / on (model_loss must be the running mean of the fresh-metric, smaller-is-better losses plus the documented offset); groups of 2-3 metrics sharing one confusion matrix (cm=) each used as a loss; recording subclass of the metric observes whether scalars ('output' entry) or the whole dict reached it; "
+                "confident predictions (exact 0/1, probabilities down to 1e-300); the metric handed to a static IncrementalSage with loss_bigger_is_better off / on (flag off: model_loss must be the running mean of the fresh-metric, smaller-is-better losses; flag on: the importance values must equal those of the twin without the flag on the same stream and seeds); groups of 2-3 metrics sharing one confusion matrix (cm=) each used as a loss; recording subclass of the metric observes whether scalars ('output' entry) or the whole dict reached it; "
                 "evaluations = loss calls judged; non-trivial = distinct (metric, y_true, y_pred) with a non-zero loss")
     run.assumptions = ["the shared metric is touched only through the loss wrappers / explainers",
                        "fresh-metric semantics: a new instance of the same class with default arguments"]
@@ -412,10 +412,11 @@ def main(run):
     for rep, (mname, mkind) in enumerate(route_cfgs * (1 if run.tier == "quick" else 4)):
         if rep % nsh != sh or mname not in accepted:
             continue
+        twin_importances = {}
         for lbib in (False, True):
             metric = getattr(M, mname)()
             sign = -1.0 if getattr(metric, "bigger_is_better", False) else 1.0
-            rs = random.Random(1000 * rep + lbib + run.seed)
+            rs = random.Random(1000 * rep + run.seed)        # (the same stream for both settings of the flag)
             random.seed(rep); np.random.seed(rep)
             fnames = ["a", "b"]
 
@@ -454,15 +455,29 @@ def main(run):
                 fresh = getattr(M, mname)()
                 fresh.update(y, pred)
                 ref_losses.append(sign * fresh.get())
-                want = sum(ref_losses) / len(ref_losses) + (1.0 if lbib else 0.0)
-                got = e.model_loss
                 run.ok(kind="explainer-route")
-                if not (abs(float(got) - want) <= 1e-9 * max(1.0, abs(want))):
-                    run.violation("not-fresh-value", f"IncrementalSage(static, loss_bigger_is_better={lbib}) with {mname}(): model_loss after {t + 1} calls is {got!r}; "
-                                                     f"the mean of the fresh-metric losses (smaller is better) {'plus the documented offset 1 ' if lbib else ''}is {want!r}",
-                                  {"metric": mname, "explainer_route": True, "loss_bigger_is_better": lbib, "call": t})
-                    okr = False
-                    break
+                imp_now = {k_: float(v_) for k_, v_ in e.importance_values.items()}
+                if not lbib:
+                    # flag off: model_loss is the running mean of the losses the explainer applied
+                    want = sum(ref_losses) / len(ref_losses)
+                    got = e.model_loss
+                    twin_importances[t] = imp_now
+                    if not (abs(float(got) - want) <= 1e-9 * max(1.0, abs(want))):
+                        run.violation("not-fresh-value", f"IncrementalSage(static) with {mname}(): model_loss after {t + 1} calls is {got!r}; "
+                                                         f"the mean of the fresh-metric losses (smaller is better) is {want!r}",
+                                      {"metric": mname, "explainer_route": True, "loss_bigger_is_better": lbib, "call": t})
+                        okr = False
+                        break
+                else:
+                    # flag on: documented as "only used to represent the marginal- and model-loss": the importance values are those
+                    # of the twin built without the flag on the same stream and seeds (how the two losses are REPRESENTED is not judged)
+                    want_imp = twin_importances.get(t)
+                    if want_imp is not None and not (set(want_imp) == set(imp_now) and all(abs(imp_now[k_] - want_imp[k_]) <= 1e-9 * max(1.0, abs(want_imp[k_])) for k_ in want_imp)):
+                        run.violation("not-fresh-value", f"IncrementalSage(static, loss_bigger_is_better=True) with {mname}(): importance values after {t + 1} calls "
+                                                         f"{imp_now!r} differ from those of the same explainer without the flag {want_imp!r} (the loss applied is not the same "
+                                                         f"smaller-is-better loss)", {"metric": mname, "explainer_route": True, "loss_bigger_is_better": lbib, "call": t})
+                        okr = False
+                        break
                 if not same(metric.get(), getattr(M, mname)().get()):
                     run.violation("metric-state-changed", f"{mname} used by IncrementalSage(loss_bigger_is_better={lbib}): metric.get() moved to {metric.get()!r}",
                                   {"metric": mname, "explainer_route": True, "loss_bigger_is_better": lbib, "call": t})
